@@ -275,6 +275,7 @@ func ruleC17(c *Ctx, r *Report) {
 				}
 				return len(q.run(cf.Blocks[0], 0, false)) == 0
 			}
+			mayExit := c.mayExitFns()
 			q := &pathQuery{
 				witness: func(i ssa.Instruction) bool {
 					if call, ok := i.(*ssa.Call); ok {
@@ -288,7 +289,24 @@ func ruleC17(c *Ctx, r *Report) {
 					}
 					return false
 				},
-				isEnd: stdEnds,
+				isEnd: func(i ssa.Instruction) (string, bool) {
+					if k, ok := stdEnds(i); ok {
+						return k, true
+					}
+					// a call of a package function / nested closure that can end the process
+					if call, ok := i.(*ssa.Call); ok {
+						var callee *ssa.Function
+						if sc := c.staticPkgCallee(&call.Call); sc != nil {
+							callee = sc
+						} else if mc, ok := call.Call.Value.(*ssa.MakeClosure); ok {
+							callee, _ = mc.Fn.(*ssa.Function)
+						}
+						if callee != nil && mayExit[callee] {
+							return "exit", true
+						}
+					}
+					return "", false
+				},
 			}
 			nEnds := 0
 			for _, t := range tests {
@@ -476,4 +494,43 @@ func isWholeValue(v, src ssa.Value, depth int) bool {
 		return n > 0
 	}
 	return false
+}
+
+// mayExitFns: package functions (and nested closures) that can end the process:
+// they call os.Exit / log.Fatal*, or call a function that does.
+func (c *Ctx) mayExitFns() map[*ssa.Function]bool {
+	out := map[*ssa.Function]bool{}
+	changed := true
+	for changed {
+		changed = false
+		for _, f := range c.SortedFuncs() {
+			if out[f] {
+				continue
+			}
+			hit := false
+			allInstrs(f, func(i ssa.Instruction) {
+				call, ok := i.(*ssa.Call)
+				if !ok {
+					return
+				}
+				if k, ok := stdEnds(i); ok && k == "exit" {
+					hit = true
+					return
+				}
+				if sc := c.staticPkgCallee(&call.Call); sc != nil && out[sc] {
+					hit = true
+				}
+				if mc, ok := call.Call.Value.(*ssa.MakeClosure); ok {
+					if fn, ok := mc.Fn.(*ssa.Function); ok && out[fn] {
+						hit = true
+					}
+				}
+			})
+			if hit {
+				out[f] = true
+				changed = true
+			}
+		}
+	}
+	return out
 }
